@@ -116,12 +116,49 @@ class RecHeartbeat:
         ghost("T").append("hb_start")
 
 
-@lemma("C24", family=[dict(cls=c) for c in ("TCPTunnel", "SecureTunnel", "UDPTunnel")], dynamic_params=lambda fixed: dict(t=Obj({"TCPTunnel": TCPTunnel, "SecureTunnel": SecureTunnel, "UDPTunnel": UDPTunnel}[fixed["cls"]], _heartbeat=Const(RecHeartbeat()), **COMMON)))
-def counter_restarts_at_zero_on_every_connection(cls, t):
-    """_tunnel_established (called by connect() after every successful ConnectRequest - C25): the
-    outgoing counter is 0 again."""
-    t._tunnel_established()
-    assert t.sequence_number == 0 and ghost("T") == ["hb_start"]
+class RecCM:
+    def connection_state_changed(self, state, connection_type=None):
+        ghost("T").append(("state", state))
+
+
+class ConnTransport(RecTransport):
+    async def connect(self):
+        ghost("T").append("transport_connect")
+
+    def getsockname(self):
+        return ("192.168.1.5", 50000)
+
+    def stop(self):
+        ghost("T").append("transport_stop")
+
+
+async def _connect_request(self):
+    ghost("T").append("connect_request")
+    self.communication_channel = ghost("new_channel")[-1]
+
+
+class Seq:
+    def reset(self):
+        ghost("T").append("incoming_reset")
+
+
+def _connect_spec(cls):
+    extra = dict(_invalid_sequence_number_reconnect_task=None, _sequence=Const(Seq()), route_back=Bool()) if cls is UDPTunnel else {}
+    common = dict(COMMON)
+    common["transport"] = Const(ConnTransport())
+    common["xknx"] = Obj(World, connection_manager=Const(RecCM()))
+    return Obj(cls, _heartbeat=Const(RecHeartbeat()), local_hpai=None, **extra, **common)
+
+
+@lemma("C24", family=[dict(cls=c) for c in ("TCPTunnel", "SecureTunnel", "UDPTunnel")], dynamic_params=lambda fixed: dict(t=_connect_spec({"TCPTunnel": TCPTunnel, "SecureTunnel": SecureTunnel, "UDPTunnel": UDPTunnel}[fixed["cls"]])), params=dict(new_channel=Int(0, 255)), stubs=[(_Tunnel, "_connect_request", _connect_request)])
+def counter_restarts_at_zero_on_every_connection(cls, t, new_channel):
+    """connect() over the real setup_tunnel / _tunnel_established of each tunnel class (UDP with and
+    without route-back), from any previous counter value: once the ConnectRequest succeeded the outgoing
+    counter is 0 - wherever in the connect sequence the code resets it."""
+    ghost("new_channel").append(new_channel)
+    run(t.connect())
+    assert t.sequence_number == 0 and t.communication_channel == new_channel
+    assert "hb_start" in ghost("T")
 
 
 UDP = Obj(UDPTunnel, _invalid_sequence_number_reconnect_task=None, _sequence=None, route_back=True, **COMMON)
